@@ -208,8 +208,11 @@ def _judge_file(case, root, got, rec, sample=True):
         if name in idx:
             target = idx[name]
             cands = []
-            for d, base, content, mtime in visible:
-                # the index target is looked up relative to every searched directory
+            everything = [(d, base, bytes.fromhex(hexc), mtime) for d, base, hexc, mtime in case['files']
+                          if os.path.isfile(os.path.join(root, d, base))]
+            for d, base, content, mtime in everything:
+                # the index target (which may carry a sub-path, reachable also by a non-recursive reader) is looked up
+                # relative to every searched directory
                 full = os.path.normpath(os.path.join(d, base))
                 for sd in set([''] + ([x[0] for x in case['files']] if case['recursive'] else [])):
                     if os.path.normpath(os.path.join(sd, target)) == full:
